@@ -115,22 +115,10 @@ Definition chk_gated (fe : Z) (mode : Z) (o_b0 o_b1 o_after o_hookdone : bool) :
    else if negb (Bool.eqb o_hookdone m3) then 1
    else 0).
 
-(* The metrics server (pkg/metrics): NewServer starts a goroutine that runs ListenAndServe (which binds the port
-   unless the server is shutting down already, and registers the listener with the server); Stop is Shutdown, which
-   closes the registered listeners and delivers. *)
-Record mstate := { m_shut : bool; m_bound : bool; m_done : bool }.
-Inductive mev := MListen | MStop.
-Definition mstep (s : mstate) (e : mev) : mstate :=
-  match e with
-  | MListen => if m_shut s then s else {| m_shut := false; m_bound := true; m_done := m_done s |}
-  | MStop => {| m_shut := true; m_bound := false; m_done := true |}
-  end.
-Definition minit : mstate := {| m_shut := false; m_bound := false; m_done := false |}.
-
 (* NewFrontend; Stop: the Stop goroutine runs first, the serving goroutine later *)
 Definition model_race (fixed : bool) (fe : Z) : bool * bool :=   (* delivered, port open at delivery *)
   if fe =? 2 then
-    let s := fold_left mstep [MStop] minit in (m_done s, m_bound s)
+    let s := mrun (negb fixed) [MStop] in (m_done s, m_bound s)
   else if fe =? 0 then
     let s := urun fixed (ustops ++ [UServe; UServe; UServe]) uinit in (udone s, u_sock s)
   else
